@@ -101,12 +101,27 @@ func Load(repo string, whole bool, overlay map[string][]byte) (*World, error) {
 		}
 		w.Funcs = append(w.Funcs, fn)
 	}
+	// by file name and offset, not by token.Pos: the files enter the file set in the order the
+	// (concurrent) parser finishes them, so raw positions differ from run to run
+	type fkey struct {
+		file string
+		off  int
+		name string
+	}
+	keys := map[*ssa.Function]fkey{}
+	for _, fn := range w.Funcs {
+		p := w.Fset.Position(fn.Pos())
+		keys[fn] = fkey{p.Filename, p.Offset, fn.String()}
+	}
 	sort.Slice(w.Funcs, func(i, j int) bool {
-		a, b := w.Funcs[i], w.Funcs[j]
-		if a.Pos() != b.Pos() {
-			return a.Pos() < b.Pos()
+		a, b := keys[w.Funcs[i]], keys[w.Funcs[j]]
+		if a.file != b.file {
+			return a.file < b.file
 		}
-		return a.String() < b.String()
+		if a.off != b.off {
+			return a.off < b.off
+		}
+		return a.name < b.name
 	})
 	for _, fn := range w.Funcs {
 		if o := fn.Object(); o != nil {
